@@ -11,6 +11,7 @@ import (
 
 	"nvharness/lib/c12facts"
 	"nvharness/lib/c12stress"
+	"nvharness/lib/c12worker"
 	"nvharness/lib/c13run"
 	"nvharness/lib/corr"
 	"nvharness/lib/gofacts"
@@ -30,6 +31,8 @@ func main() {
 		corr.Main(spec(), os.Args[2:])
 	case "stressrun":
 		c12stress.ChildMain(os.Args[2:])
+	case "runworker":
+		c12worker.Serve(func(c corr.Case) corr.Result { return c13run.RunCase("C13", c) })
 	case "stress":
 		stress(os.Args[2:])
 	default:
@@ -529,7 +532,13 @@ func spec() corr.Spec {
 			}
 			return genList(r, kind, r.Range(3, 22))
 		},
-		Run: func(c corr.Case) corr.Result { return c13run.RunCase("C13", c) },
+		// every script runs in a worker child process: a fatal error or a call that never returns is a hit, not a dead runner
+		Run: func(c corr.Case) corr.Result {
+			if len(c.Lines) == 1 && strings.HasPrefix(c.Lines[0], "stress ") {
+				return c13run.RunCase("C13", c) // already a child process of its own
+			}
+			return c12worker.Run("C13", c)
+		},
 		NonTrivial: func(c corr.Case, r corr.Result) bool {
 			// some consumer was parked at some point and some consumer returned
 			parked, ret := false, false
